@@ -48,6 +48,8 @@ class GridSampler(PointSampler):
             # points that are not allowed
             sample_points = self._sample_points(params, device)
             sample_points = self._apply_filter(sample_points)
+            if params.isempty:  # the filter changes the number of created points
+                self.set_length(len(sample_points))
         return sample_points
 
     def _sample_n_points_with_filter(self, params, device):
